@@ -143,6 +143,18 @@ var findingClasses = []findingClass{
 		}
 		return false
 	}},
+	// gem: a digit segment whose value does not fit int is kept as a string segment
+	{"F-gem-long-number", "C13", "gem", func(kind string, rng string, vs []string) bool {
+		if kind != "reference-order" {
+			return false
+		}
+		for _, v := range vs {
+			if overflowsInt(v) {
+				return true
+			}
+		}
+		return false
+	}},
 	// maven: flat element list instead of ComparableVersion's nested lists
 	{"F-maven-not-comparableversion", "C12", "maven", func(kind string, rng string, vs []string) bool {
 		if kind != "reference-order" {
@@ -308,4 +320,15 @@ func findingStatuses(prop string) []FindingStatus {
 		out = append(out, FindingStatus{ID: f.ID, Status: f.Status, StillFails: still, Note: note})
 	}
 	return out
+}
+
+// overflowsInt: the text has a run of digits whose value is 2^63 or more
+func overflowsInt(s string) bool {
+	for _, run := range digitRuns(s) {
+		d := strings.TrimLeft(s[run[0]:run[1]], "0")
+		if len(d) > 19 || (len(d) == 19 && d >= "9223372036854775808") {
+			return true
+		}
+	}
+	return false
 }
